@@ -18,7 +18,7 @@ module Array = Stdlib.Array
 let sarg_of variant l =
   match variant with
   | "plain" -> ANone
-  | "scalar" | "ctg" -> AScalar (List.hd l)
+  | "scalar" | "ctg" | "fd" -> AScalar (List.hd l)
   | "pair" -> AList l
   | _ -> failwith "variant"
 
